@@ -1,10 +1,11 @@
 (* The do_build model instantiated with the constants regenerated from pico8/build/build.py,
    pico8/game/file.py and the argparse definition in pico8/tool.py. *)
 From PV Require Import Base.Prelude Spec.BuildSpec Model.Build
-  Generated.T_files_build Generated.T_files_file Generated.T_build_do.
+  Generated.T_file_proto Generated.T_build_do.
 
 Definition do_build_now {A} (w : world A) (ns : namespace) : outcome A :=
-  do_build build_sections build_endswith_consts build_empty_prefixes do_build_section_eq_consts w ns.
+  do_build build_sections build_endswith_consts build_empty_prefixes do_build_section_eq_consts
+           do_build_format_attrs do_build_minify_attrs do_build_writer_cls_is_tuple w ns.
 
 Definition namespace_now (args : build_args) : namespace := namespace_of build_arg_dests args.
 
